@@ -79,7 +79,10 @@ def check_radials(acc, rng):
             def U(sd):
                 return radial.U(math.sqrt(rho2 + sd * sd))
             want = -richardson(U, s[d], 1e-3 * r) * speed
-            scale = abs(radial.dU(r)) * speed + 1e-300
+            hh = 1e-3 * r
+            # natural scale of the finite-difference error: the largest slope within the stencil (next to a potential
+            # minimum the slope at the point itself is ~0 while the stencil reaches slopes many decades larger)
+            scale = max(abs(radial.dU(r)), abs(radial.dU(r + hh)), abs(radial.dU(max(r - hh, 1e-300)))) * speed + 1e-300
             wit = {"kind": kind, "params": params, "L": L, "s": [x.hex() for x in s], "d": d, "speed": speed, "c": [c1, c2]}
             if not isinstance(got, float) or got != got or abs(got - want) > 1e-7 * scale:
                 acc.violation("C03:derivative-differs-from-energy-gradient",
